@@ -79,8 +79,11 @@ def is_typeddict(t):
 
 def info(t, tvmap=None):
     t = strip(t)
-    if tvmap and t in tvmap:
-        return info(tvmap[t], tvmap)
+    try:
+        if tvmap and t in tvmap:
+            return info(tvmap[t], tvmap)
+    except TypeError:
+        pass
     if t is typing.Any:
         return TI("any", t)
     if t is None or t is NoneType:
@@ -118,7 +121,9 @@ def info(t, tvmap=None):
     if hasattr(base, "_serialize") and hasattr(base, "_deserialize"):
         return TI("stype", base)
     if dataclasses.is_dataclass(base):
-        tv = {}
+        tv = {te.Self: base}
+        if hasattr(typing, "Self"):
+            tv[typing.Self] = base
         params = getattr(base, "__parameters__", ())
         for p, x in zip(params, a):
             tv[p] = x
